@@ -55,12 +55,16 @@ type vC18KeySet struct {
 var (
 	vC18KeysOnce sync.Once
 	vC18KeysVal  *vC18KeySet
+	vC18Dir      string // directory for the public key files (removed with the test)
 )
 
 func vC18Keys() *vC18KeySet {
 	vC18KeysOnce.Do(func() {
 		ks := &vC18KeySet{rsa: map[string]*rsa.PrivateKey{}, pem: map[string][]byte{}, file: map[string]string{}}
-		dir, err := os.MkdirTemp("", "verif-c18-")
+		dir, err := vC18Dir, error(nil)
+		if dir == "" {
+			dir, err = os.MkdirTemp("", "verif-c18-")
+		}
 		if err != nil {
 			panic(err)
 		}
@@ -1078,5 +1082,6 @@ func vC18Exec(t *testing.T, c *vCase) {
 }
 
 func TestVerifC18(t *testing.T) {
+	vC18Dir = t.TempDir()
 	vRun(t, vC18Gen, vC18Exec)
 }
